@@ -8,6 +8,7 @@ from ..engine.cutil import split_args, match_paren
 from ..engine.pyindex import walk_no_nested, is_self_attr
 from ..rules import pC15 as P
 from ..rules import sC15 as S
+from ..rules import s7C15 as S7
 from ..rules.iface import const_strs, local_env, str_template, PLACEHOLDER
 
 ID = 'C15'
@@ -146,6 +147,22 @@ MUTATIONS += [
     ('Cython/Compiler/ExprNodes.py', "stop_code -> '-1', start_code -> '1', allow_none(self.stop, '0')", 'C15-DEFAULT'),
     ('Cython/Compiler/ExprNodes.py', "_check_byte_value: '%s > 256'", 'C15-BYTE'),
     ('Cython/Compiler/Optimize.py', 'visit_SliceIndexNode: `base.mult_factor is None` dropped', 'C15-BOUND constant-sequence:multiplier'),
+]
+
+# seventh round (seed C15j, sa/rules/s7C15.py; mutants/C15/slicekey-*, slicelit-*, keep-slice*): constant slice objects
+TECHNIQUE += ('; seventh round: finite-domain evaluation of the pooling key of constant slice objects (SliceNode.generate_result_code / make_dedup_key folded by the checker\'s ObjFolder on '
+              'all triples over absent / 0 / a / b, injectivity of the key) and writer/reader agreement between the literal gate, the PySlice_New arguments and the slice SliceIndexNode caches')
+DECIDES += (' (SLICEKEY) the key under which SliceNode pools a constant slice object (code.get_py_const(dedup_key=...)) is different for any two literal slices that differ in start, stop or step: '
+            'generate_result_code is folded on the 64 triples over {absent, 0, a, b} and the keys compared pairwise, and the same for 27 slices nested in a constant tuple (recursion of make_dedup_key); '
+            '(SLICELIT) SliceNode emits PySlice_New(start, stop, step) from its own three sub-expressions in that order, sets is_literal (which moves the construction into the cached-constants section) only under a '
+            'test of .is_literal of each of them, and SliceIndexNode builds the slice object of x[a:b] with start= from its start, stop= from its stop and the constant None as step.')
+NOT_DECIDED += ('; constant slices: the pool itself (GlobalState.get_py_const / dedup_const_index in Code.py, decided for C09), the value classes of the components beyond absent / falsy / two truthy '
+                'constants (float or string bounds are keyed by the constant branch of make_dedup_key, C09-KEYCOV), SliceNode.constant_result (not modelled: a key function that keys a slice by its '
+                'constant_result is seen as "not pooled").')
+MUTATIONS += [
+    ('Cython/Compiler/ExprNodes.py', 'seed C15j: make_dedup_key keys a slice by (start, stop); also (start, step), (stop, step), item_keys[:2], step keyed by truthiness, SliceNode keying (self.start, self.stop) directly', 'C15-SLICEKEY SliceNode.generate_result_code:pooling-key:<plain|in-tuple>:<component>'),
+    ('Cython/Compiler/ExprNodes.py', 'SliceNode.analyse_types: literal gate without the step; PySlice_New(stop, start, step); SliceIndexNode cached slice with stop= copied from the start', 'C15-SLICELIT'),
+    ('Cython/Compiler/ExprNodes.py', 'make_dedup_key rewritten with a local helper and early returns, components keyed as (step, start, stop); gate written with all(...); PySlice_New arguments through locals', 'silent'),
 ]
 
 EX = 'Cython/Compiler/ExprNodes.py'
@@ -871,4 +888,5 @@ def run(ctx):
             emitted |= set(names)
     return [ra, rule_flags(ctx, M, ra), rule_forward(ctx, M, F), rule_guard(ctx, M, F), rule_slice(ctx, M), rule_raw(ctx, M),
             S.rule_once(ctx, F), S.rule_bound(ctx),
-            S.rule_amount(ctx, F), S.rule_valid(ctx), S.rule_clamp(ctx, emitted), S.rule_sliceobj(ctx), S.rule_kind(ctx), S.rule_default(ctx), S.rule_range(ctx, F), S.rule_byte(ctx)]
+            S.rule_amount(ctx, F), S.rule_valid(ctx), S.rule_clamp(ctx, emitted), S.rule_sliceobj(ctx), S.rule_kind(ctx), S.rule_default(ctx), S.rule_range(ctx, F), S.rule_byte(ctx),
+            S7.rule_slicekey(ctx), S7.rule_slicelit(ctx)]
